@@ -136,3 +136,113 @@ def s_normalize_pad_format(ctx):
 SCENARIOS.append(Scenario("C05.rules.NormalizePadFormatConv", s_normalize_pad_format,
                           [(FILE, "NormalizePadFormatConv.compute_pads"), (FILE, "_NormalizePadFormatBase.check"), (FILE, "_NormalizePadFormatBase.rewrite"), (FILE, "read_conv_attributes")],
                           trusted=TRUST, assumptions=["spatial rank <= 2 (the computation is per axis); extents, kernels, strides, dilations unbounded"], max_paths=20000))
+
+
+# ------------------------------------------------------------------ Conv + scalar affine ----------------------
+
+def s_conv_affine(ctx, which):
+    """ConvAffineFusion: Conv(x, w, b) * s + o -> Conv(x, w', b');  AffineConvFusion: Conv(x * s + o, w, b; pads 0) -> Conv(x, w', b').
+    The rewrite function is run from its real source on numpy OBJECT arrays whose elements are z3 reals (numpy broadcasting,
+    reshape and sum are the real ones).  Post, for every weight, bias, scale, offset and every input patch: the fused weight
+    has the shape of w, the fused bias the shape (M,), the other Conv attributes are kept, and the fused Conv computes the
+    same value at an output position as the original expression (exact over the reals)."""
+    import numpy as np
+    import onnx_ir as ir
+    from onnxscript.rewriter.rules.common import _fuse_conv_affine as mod
+    from onnxscript.rewriter import _ir_utils
+    I = Interp(ctx)
+    W = World(I)
+    M, C, KH, KW = 2, 2, 1, 2
+    R = lambda nm: z3.Real(nm)
+    w_arr = np.array([[[[R(f"w{m}{c}{i}{j}") for j in range(KW)] for i in range(KH)] for c in range(C)] for m in range(M)], dtype=object)
+    b_arr = np.array([R(f"b{m}") for m in range(M)], dtype=object)
+    s_rank = [0, 1, 4, 5][ctx.choose(4, "rank of the scale constant")]
+    o_rank = [0, 1, 4, 5][ctx.choose(4, "rank of the offset constant")]
+    s, o = R("scale"), R("offset")
+    s_arr = np.array(s, dtype=object).reshape([1] * s_rank)
+    o_arr = np.array(o, dtype=object).reshape([1] * o_rank)
+    for nm, t in (("scale", s), ("offset", o)):
+        ctx.witness[nm] = t
+
+    def const_value(name, arr, known=True):
+        v = W.value(name, dims=None, rt=[], dtype=ir.DataType.FLOAT)
+        t = SObj(ir.Tensor, f"{name}_tensor")
+
+        def f_numpy():
+            raise AssertionError
+        I.models[f_numpy] = lambda interp: arr
+        t.fields.update(numpy=f_numpy, shape=ir.Shape(list(arr.shape)), dtype=ir.DataType.FLOAT, size=arr.size)
+        v.fields.update(const_value=(t if known else None), name=name)
+        return v
+    known = {k: ctx.choose(2, f"{k} is a constant") == 0 for k in ("w", "b", "scale", "offset")}
+    wv, bv = const_value("w", w_arr, known["w"]), const_value("b", b_arr, known["b"])
+    sv, ov = const_value("scale", s_arr, known["scale"]), const_value("offset", o_arr, known["offset"])
+    x = W.value("x", dims=None, rt=[], dtype=ir.DataType.FLOAT)
+    I.models[_ir_utils.get_numpy_value] = lambda interp, v, *a, **k: (v.fields["const_value"].fields["numpy"] and interp.call(v.fields["const_value"].fields["numpy"], [])) if (isinstance(v, SObj) and v.fields.get("const_value") is not None) else None
+    I.models[mod.get_const_value] = lambda interp, v, *a, **k: (v.fields.get("const_value") if isinstance(v, SObj) else None)
+    attrs = {"group": 1, "strides": [1, 1]}
+    if which == "AffineConvFusion":
+        attrs["pads"] = [0, 0, 0, 0]
+    conv_node = W.node("Conv", [x, wv, bv], attrs=attrs)
+    conv_out = conv_node.fields["outputs"][0]
+
+    def f_prod():
+        raise AssertionError
+    I.models[f_prod] = lambda interp: conv_node
+    conv_out.fields["producer"] = f_prod
+    rule = SObj(getattr(mod, which), "rule")
+    try:
+        fired = I.truth(I.call(I.getattr(rule, "check"), [None, x, wv, bv, sv, ov, conv_out]))
+    except PyRaise as e:
+        ctx.check(f"C04.rules.{which}.check_never_raises", False, f"C04 — raised {e.exc!r}")
+        return
+    ctx.check(f"C04.rules.{which}.check_never_raises", True, "C04")
+    if not fired:
+        ctx.cover(f"{which}.check_failed")
+        return
+    ctx.check(f"C05.rules.{which}.fires_only_with_constant_weight_bias_scale_and_offset", all(known.values()), CL)
+    ctx.check(f"C05.rules.{which}.fires_only_for_one_element_constants_that_add_no_dimension", s_rank <= 4 and o_rank <= 4,
+              CL + " — a [1,1,1,1,1] operand of Mul / Add raises the rank of the result to 5")
+    if not all(known.values()):
+        return
+    made = []
+    I.models[ir.tensor] = lambda interp, arr, *a, **k: (made.append(np.asarray(arr, dtype=object)) or ("tensor", len(made)))
+    rec = OpRecorder()
+    r = I.call(I.getattr(rule, "rewrite"), [rec, x, wv, bv, sv, ov, conv_out])
+    ok = isinstance(r, Call) and r.op == "Conv" and len(r.args) == 3 and r.args[0] is x and len(made) == 2 \
+        and all(isinstance(a, Call) and a.op == "initializer" for a in r.args[1:])
+    ctx.check(f"C05.rules.{which}.replacement_is_a_conv_of_x_with_two_new_initializers", ok, CL)
+    if not ok:
+        return
+    idx = {a.args[0]: a for a in r.args[1:]}
+    w_new = made[r.args[1].args[0][1] - 1]
+    b_new = made[r.args[2].args[0][1] - 1]
+    ctx.check(f"C05.rules.{which}.fused_weight_has_the_shape_of_the_weight", tuple(w_new.shape) == tuple(w_arr.shape), CL)
+    ctx.check(f"C05.rules.{which}.fused_bias_is_one_value_per_output_channel", tuple(b_new.shape) == (M,), CL + " — Conv's B is a 1-D tensor of size M")
+    kept = {k: v for k, v in r.kwargs.items()}
+    ctx.check(f"C05.rules.{which}.conv_attributes_are_kept", set(kept) == set(attrs) and all((kept[k].fields["value"] if isinstance(kept[k], SObj) else kept[k]) == attrs[k] for k in attrs), CL)
+    if tuple(w_new.shape) != tuple(w_arr.shape) or tuple(b_new.shape) != (M,):
+        return
+    xs = np.array([[[R(f"x{c}{i}{j}") for j in range(KW)] for i in range(KH)] for c in range(C)], dtype=object)
+    for m in range(M):
+        if which == "ConvAffineFusion":
+            orig = (sum((w_arr[m] * xs).reshape(-1)) + b_arr[m]) * s + o
+        else:
+            orig = sum((w_arr[m] * (xs * s + o)).reshape(-1)) + b_arr[m]
+        new = sum((w_new[m] * xs).reshape(-1)) + b_new[m]
+        ctx.check(f"C05.rules.{which}.fused_conv_computes_the_same_value_for_every_weight_bias_scale_offset_and_input", new == orig, CL)
+
+
+def _mk_ca(which):
+    def run(ctx):
+        return s_conv_affine(ctx, which)
+    run.__doc__ = s_conv_affine.__doc__
+    return run
+
+
+AFF = "onnxscript/rewriter/rules/common/_fuse_conv_affine.py"
+for _w in ("ConvAffineFusion", "AffineConvFusion"):
+    SCENARIOS.append(Scenario(f"C05.rules.{_w}", _mk_ca(_w), [(AFF, "_ConvAffineFusionBase.check"), (AFF, f"{_w}.rewrite")],
+                              kind="bounded", bound="weight [2,2,1,2] (2 output channels, 2 input channels, 1x2 kernel), one output position; all values unbounded reals; scale/offset of rank 0, 1, 4, 5",
+                              trusted=["ONNX Conv (no padding): out[m] = sum_{c,k} w[m,c,k] x[c,k] + b[m]", "numpy broadcasting / reshape / sum on object arrays"],
+                              assumptions=["floats treated as reals"], max_paths=2000))
